@@ -49,6 +49,45 @@ std::string handle(const std::string& op, Args& a)
 			}
 		});
 	}
+	if(op == "c12.seq")
+	{
+		// history: the whole sequence of rules is computed in ONE child process, one after the other;
+		// then every member once more alone in a fresh child (the parent never computes a rule itself).
+		size_t k = a.u64();
+		std::vector<unsigned> ns(k);
+		std::vector<double> lo(k), hi(k);
+		for(size_t i = 0; i < k; i++)
+		{
+			ns[i] = a.u64();
+			lo[i] = a.dbl();
+			hi[i] = a.dbl();
+		}
+		a.end();
+		auto dump = [](Out& o, const std::vector<std::vector<double>>& rw) {
+			o << rw.size();
+			for(auto& p : rw)
+			{
+				o << p.size();
+				for(double v : p)
+					o << v;
+			}
+		};
+		std::string seq = run_forked([&](Out& o) {
+			for(size_t i = 0; i < k; i++)
+				dump(o, Compute_Gauss_Legendre_Roots_and_Weights(ns[i], lo[i], hi[i]));
+		});
+		if(seq.compare(0, 2, "ok") != 0)
+			return seq;
+		std::string res = "ok " + std::to_string(k) + seq.substr(2) + " alone";
+		for(size_t i = 0; i < k; i++)
+		{
+			std::string one = run_forked([&](Out& o) { dump(o, Compute_Gauss_Legendre_Roots_and_Weights(ns[i], lo[i], hi[i])); });
+			if(one.compare(0, 2, "ok") != 0)
+				return one;
+			res += one.substr(2);
+		}
+		return res;
+	}
 	if(op == "c12.sumvals")
 	{
 		auto v	= a.dbls();
